@@ -177,8 +177,7 @@ def run(ctx: Ctx) -> None:
     from .common import Driver
     drv = Driver()
     try:
-        miniblock.tie(ctx, drv, 2500 if quick else 60000)
-        miniblock.tie_quote(ctx, drv, 2500 if quick else 60000)
+        miniblock.tie_all(ctx, drv, quick)
     finally:
         drv.close()
     ctx.partial += [
